@@ -43,6 +43,7 @@ def gen(seed: int, tier: str) -> dict[str, Any]:
            # "cover": the same history driven through a real Cover device (telegram queue, remote values, periodic
            # updater task) on the virtual-time loop instead of the bare TravelCalculator
            "mode": "cover" if rng.random() < 0.12 else "tc"}
+    cfg["shadow"] = cfg["mode"] == "tc" and rng.random() < 0.25
     ops = []
     n = rng.choice([3, 6, 12, 25])
     for _ in range(n):
@@ -68,6 +69,10 @@ def run(plan: dict[str, Any]) -> dict[str, Any]:
     clock = [float(cfg["epoch"])]
     R.env.wall_override = lambda: clock[0]
     tc = TravelCalculator(cfg["down"], cfg["up"])
+    # a second cover with other travel times moves in the same process: it gets every command first and is queried first
+    tc2 = TravelCalculator(cfg["down"] * 3 + 7, cfg["up"] / 2 + 1) if cfg.get("shadow") else None
+    if tc2 is not None:
+        R.extra_faults["second_cover_with_other_travel_times_moving_meanwhile"] += 1
     dev: dict[str, Any] = {"cover": None, "xknx": None, "stub": None}
     # ---- reference state
     m: dict[str, Any] = {"last": None, "ts": None, "target": None, "moving": False, "dir": 0}
@@ -186,6 +191,12 @@ def run(plan: dict[str, Any]) -> dict[str, Any]:
     async def cmd(kind: str, p: int | None):
         """Issue one command to the object under test."""
         if not cover_mode:
+            if tc2 is not None:
+                try:
+                    {"start": tc2.start_travel, "up": tc2.start_travel_up, "down": tc2.start_travel_down, "stop": tc2.stop,
+                     "set": tc2.set_position, "report": tc2.update_position}[kind](*((p,) if p is not None else ()))
+                except Exception:  # pylint: disable=broad-except
+                    pass
             fn = {"start": tc.start_travel, "up": tc.start_travel_up, "down": tc.start_travel_down, "stop": tc.stop,
                   "set": tc.set_position, "report": tc.update_position}[kind]
             return call(fn, *((p,) if p is not None else ()))
@@ -210,6 +221,11 @@ def run(plan: dict[str, Any]) -> dict[str, Any]:
             return False, None
 
     def current_position():
+        if tc2 is not None and not cover_mode:
+            try:
+                tc2.current_position()
+            except Exception:  # pylint: disable=broad-except
+                pass
         return dev["cover"].current_position() if cover_mode else tc.current_position()
 
     cur = current_position
